@@ -320,9 +320,17 @@ def variant(name, otype, ver, p, r, ctx):
             op = {'op': 'ModifyAttribute', 'uid': ref, 'new': attr_for(n, r)}
             if p in (0, 5):
                 op['cur'] = attr_for(n, r, existing=p == 0)
+            if p == 5 and n in multi and r.random() < 0.5:
+                # rename the second instance to the first one's value
+                op['cur'] = second_instance(n)
+                op['new'] = attr_for(n, r, existing=True)
             return op
         a = attr_for(n, r)
-        if p == 5:
+        if p == 5 and r.random() < 0.5:
+            # rename instance 1 to the value instance 0 already has
+            a = attr_for(n, r, existing=True)
+            a['i'] = 1
+        elif p == 5:
             a['i'] = r.choice([-1, 7, 2 ** 31 - 1])
         elif p == 0:
             a['i'] = 0
@@ -358,6 +366,14 @@ def gen_ot_num(otype):
             'OpaqueData': 8}[otype]
 
 
+def second_instance(n):
+    if n == 'Name':
+        return A(n, ['xname2', 1])
+    if n == 'Object Group':
+        return A(n, 'xgroup2')
+    return A(n, ['xns2', 'xdata2'])
+
+
 def attr_for(n, r, existing=False):
     if n == 'Name':
         return A(n, ['xname' if existing else 'new-%d' % r.randrange(99), 1])
@@ -386,8 +402,10 @@ def setup_steps(otype, state, r, ctx):
     reg['label'] = 'x'
     reg['attrs'] = [a for a in reg['attrs'] if a['n'] not in (
         'Name', 'Object Group', 'Application Specific Information')] + [
-        A('Name', ['xname', 1], 0), A('Object Group', 'xgroup', 0),
-        A('Application Specific Information', ['xns', 'xdata'], 0)]
+        A('Name', ['xname', 1], 0), A('Name', ['xname2', 1], 1),
+        A('Object Group', 'xgroup', 0), A('Object Group', 'xgroup2', 1),
+        A('Application Specific Information', ['xns', 'xdata'], 0),
+        A('Application Specific Information', ['xns2', 'xdata2'], 1)]
     if otype != 'OpaqueData':
         reg['attrs'] = [a for a in reg['attrs']
                         if a['n'] != 'Cryptographic Usage Mask'] + [
